@@ -907,10 +907,17 @@ pub fn eval_condition(value: &str, context: &impl ContextView) -> Result<bool> {
                 "Expected closing '{EXPR_END}': '{value}'"
             )))?;
     }
-    eval_str(value, context)?
-        .parse::<f32>()
-        .map(|v| v != 0.)
-        .map_err(|_| SvgdxError::ParseError(format!("Invalid condition: '{value}'")))
+    // (a number is tested as it is: its text form is rounded to three decimals,
+    // which would make a small non-zero value count as zero)
+    let result = tokenize(value).and_then(|tokens| evaluate(tokens, context))?;
+    match result.one_number() {
+        Ok(v) => Ok(v != 0.),
+        Err(_) => result
+            .to_string()
+            .parse::<f32>()
+            .map(|v| v != 0.)
+            .map_err(|_| SvgdxError::ParseError(format!("Invalid condition: '{value}'"))),
+    }
 }
 
 pub fn eval_list(value: &str, context: &impl ContextView) -> Result<Vec<String>> {
